@@ -13,6 +13,8 @@ Each top-level statement of an entry point is classified (fail-closed) as one of
 The Coq side (Proofs/Skeleton.v) gives the semantics and proves that the boolean checkers
 evaluated on this generated list imply the behavioural statements of C12 / C15."""
 import ast
+import warnings
+warnings.filterwarnings("ignore")
 import hashlib
 import os
 
@@ -50,6 +52,8 @@ ENTRY_POINTS = [
     ('series_to_str', 'py_stringsimjoin/utils/converter.py', None, 'series_to_str'),
 ]
 
+PURE_CALLS = ('int', 'float', 'floor', 'ceil', 'len', 'min', 'max', 'list')
+PURE_METHODS = ('upper', 'lower')
 INLINE_CALLEES = {'OverlapFilter': 'OverlapFilter.__init__'}
 MUTATORS = ('insert', 'update', 'append', 'sort', 'sort_values', 'drop', 'pop', 'extend', 'remove',
             'set_index', 'reset_index', 'fillna', 'dropna', 'rename', 'set_return_set', 'clear',
@@ -125,6 +129,14 @@ class Extractor:
                 ev.append(('Pure',))
                 i += 1
                 continue
+            if isinstance(s, ast.Try):
+                if not allow_try or s.handlers or s.orelse or not s.finalbody:
+                    raise Unsupported('%s: try shape (line %d)' % (fn, s.lineno))
+                body = self.simple_events(s.body, fn, allow_try=False)
+                fin = self.simple_events(s.finalbody, fn, allow_try=False)
+                ev.append(('Try', body, fin))
+                i += 1
+                continue
             # validate_xxx(...)
             if isinstance(s, ast.Expr) and is_call_named(s.value, 'validate_'):
                 ev.append(('Validate', s.value.func.id))
@@ -171,14 +183,6 @@ class Extractor:
                 ev.append(('Ret',))
                 i += 1
                 continue
-            if isinstance(s, ast.Try):
-                if not allow_try or s.handlers or s.orelse or not s.finalbody:
-                    raise Unsupported('%s: try shape (line %d)' % (fn, s.lineno))
-                body = self.simple_events(s.body, fn, allow_try=False)
-                fin = self.simple_events(s.finalbody, fn, allow_try=False)
-                ev.append(('Try', body, fin))
-                i += 1
-                continue
             # X = Callee(...)  /  X = obj.filter_tables(...): inline the callee's skeleton
             inl = self.inline_target(s)
             if inl is not None:
@@ -197,8 +201,19 @@ class Extractor:
                 raise Unsupported('%s: raise/return nested in statement at line %d' % (fn, s.lineno))
             if contains(s, lambda n: is_call_named(n, 'validate_')):
                 raise Unsupported('%s: validate_ call nested in statement at line %d' % (fn, s.lineno))
-            if isinstance(s, (ast.Assign, ast.AugAssign)) and not contains(s, lambda n: isinstance(n, ast.Call)):
+            if isinstance(s, (ast.Assign, ast.AugAssign)) and all(
+                    (isinstance(n.func, ast.Name) and n.func.id in PURE_CALLS) or
+                    (isinstance(n.func, ast.Attribute) and n.func.attr in PURE_METHODS)
+                    for n in ast.walk(s) if isinstance(n, ast.Call)) and \
+                    all(isinstance(t, ast.Name) or (isinstance(t, ast.Attribute) and isinstance(t.value, ast.Name)
+                                                    and t.value.id == 'self')
+                        for t in (s.targets if isinstance(s, ast.Assign) else [s.target])):
                 ev.append(('Pure',))
+            elif isinstance(s, ast.Expr) and isinstance(s.value, ast.Call) and \
+                    isinstance(s.value.func, ast.Attribute) and s.value.func.attr == '__init__' and \
+                    isinstance(s.value.func.value, ast.Call) and \
+                    isinstance(s.value.func.value.func, ast.Name) and s.value.func.value.func.id == 'super':
+                ev.append(('Pure',))          # construction of the fresh filter object
             else:
                 ev.append(('Work',))
             i += 1
@@ -260,12 +275,22 @@ class Extractor:
         f = s.value.func
         if isinstance(f, ast.Name) and f.id in INLINE_CALLEES:
             name = INLINE_CALLEES[f.id]
-            return [('Begin', name)] + self.entry_events(name) + [('End', name)]
+            return [('Begin', name)] + self.callee_events(name) + [('End', name)]
         if isinstance(f, ast.Attribute) and f.attr == 'filter_tables' and isinstance(f.value, ast.Name) and \
                 f.value.id == 'overlap_filter':
             name = 'OverlapFilter.filter_tables'
-            return [('Begin', name)] + self.entry_events(name) + [('End', name)]
+            return [('Begin', name)] + self.callee_events(name) + [('End', name)]
         return None
+
+    def callee_events(self, name):
+        """Events of an inlined callee: its final `return` only ends the callee."""
+        evs = self.entry_events(name)
+        if evs and evs[-1] == ('Ret',):
+            evs = evs[:-1]
+        for e in evs:
+            if e[0] in ('Ret', 'EarlyRet', 'Try', 'FlipTo', 'Restore'):
+                raise Unsupported('inlined callee %s has an inner %s' % (name, e[0]))
+        return evs
 
     def entry_events(self, name):
         for nm, rel, cls, fn in ENTRY_POINTS:
